@@ -94,14 +94,14 @@ def has_tuple_with_nonleaf(root):
              and any(not isinstance(c, gen.Leaf) for c in n.items) for n in gen.walk(root))
 
 
-def gen_pair(rng, acc, pos_fraction=0.15, exclude_edits=(), extra_containers=()):
+def gen_pair(rng, acc, pos_fraction=0.15, exclude_edits=(), extra_containers=(), defaultdicts=False):
   """Returns (old_root, new_root, edits, mode, old, new) or None."""
   use_pos = rng.random() < pos_fraction
   opts = gen.Opts(max_nodes=rng.choice([3, 6, 10]), max_depth=4, p_share=0.3, p_clone=0.1,
                   btypes=['Config', 'Config', 'Partial'], fns=FNS + (POS_FNS if use_pos else []),
                   lattice=0.0, leaves=LEAVES,
                   containers=['list', 'tuple', 'dict', 'dict', 'point'] + list(extra_containers)
-                  + (['defaultdict'] if rng.random() < 0.3 else []),
+                  + (['defaultdict'] if defaultdicts and rng.random() < 0.3 else []),
                   explicit_tags=0.3, dict_keys=['k1', 'k2', 'k3', 4, 'a b'], uid=False)
   g = gen.DagGen(rng, opts)
   root_btype = rng.choice(['Config', 'Partial'])
@@ -275,7 +275,7 @@ def annotated_swap_pair(rng, acc):
 def run_case(rng, acc):
   r_ = rng.random()
   pair = (custom_container_pair(rng, acc) if r_ < 0.15 else
-          annotated_swap_pair(rng, acc) if r_ < 0.2 else gen_pair(rng, acc))
+          annotated_swap_pair(rng, acc) if r_ < 0.2 else gen_pair(rng, acc, defaultdicts=True))
   if pair is None:
     return
   old_root, new_root, edits, mode, old, new = pair
